@@ -586,7 +586,15 @@ func (e *ruleEnv) instantiate(c map[string]interface{}) []*ruleText {
 		rt := &ruleText{ast: newAst(), c07: true, cls: "nfields"}
 		rt.ast.List, rt.ast.Action = "exit", "always"
 		rt.args = []string{"-a", "always,exit"}
-		for i := 0; i < num("n"); i++ {
+		n, cmpAt := num("n"), str("cmp")
+		for i := 0; i < n; i++ {
+			if cmpAt == "all" || (cmpAt == "first" && i == 0) || (cmpAt == "last" && i == n-1) || (cmpAt == "last2" && i >= n-2) {
+				p := [][2]string{{"uid", "euid"}, {"auid", "obj_uid"}, {"gid", "egid"}, {"euid", "fsuid"}, {"sgid", "fsgid"}}[r.Intn(5)]
+				op := []string{"=", "!="}[r.Intn(2)]
+				rt.args = append(rt.args, "-C", p[0]+op+p[1])
+				rt.ast.Items = append(rt.ast.Items, astItem{T: "C", LHS: p[0], Op: op, RHS: p[1], VK: "num", Str: []int{}})
+				continue
+			}
 			f := []string{"pid", "a0", "a1", "a2", "a3", "pers", "uid", "egid"}[r.Intn(8)]
 			arg, it, _, _ := e.filterFor(f, []string{"=", "!=", "<", ">="}[r.Intn(4)], "small")
 			if f != "uid" && f != "egid" {
